@@ -65,8 +65,16 @@ class Ctx:
 # ---------------------------------------------------------------- build
 
 def build_harness(cx, race=False):
-    shutil.copy(os.path.join(REPO, "go.sum"), os.path.join(HARNESS, "go.sum"))
     cmd = ["go", "build", "-tags", "verif", "-o", cx.bin]
+    if REPO != "/repo":
+        # a scratch worktree of the library (used when testing seeded changes): same harness, other replace target
+        mod = open(os.path.join(HARNESS, "go.mod")).read().replace("=> /repo", "=> " + REPO)
+        mf = os.path.join(cx.scratch, "go.mod")
+        open(mf, "w").write(mod)
+        shutil.copy(os.path.join(REPO, "go.sum"), os.path.join(cx.scratch, "go.sum"))
+        cmd += ["-modfile", mf]
+    else:
+        shutil.copy(os.path.join(REPO, "go.sum"), os.path.join(HARNESS, "go.sum"))
     if race:
         cmd.insert(2, "-race")
     cmd.append("./cmd/pgverif")
@@ -345,17 +353,24 @@ def judge(cx, behaviours, trace, rejected, crash, trace_module, play_cmd="play",
     """Turn rejections/crashes into reproduced violations."""
     beh_lines = read_lines(behaviours)
     if crash:
-        i = crash["index"]
-        if i < 0 or i >= len(beh_lines):
+        i0 = crash["index"]
+        if i0 < 0 or i0 >= len(beh_lines):
             raise Machinery("harness died outside a behaviour:\n" + crash["output"])
-        one = os.path.join(cx.scratch, "one-crash.ndjson")
-        open(one, "w").write(beh_lines[i] + "\n")
-        t2, c2 = play(cx, one, "recrash", cmd=play_cmd, extra=play_extra)
+        # a panicking goroutine takes a moment to kill the process: the driver may already have moved on
+        c2 = None
+        for i in (i0, i0 - 1, i0 - 2):
+            if i < 0:
+                continue
+            one = os.path.join(cx.scratch, "one-crash.ndjson")
+            open(one, "w").write(beh_lines[i] + "\n")
+            t2, c2 = play(cx, one, "recrash", cmd=play_cmd, extra=(play_extra or []) + ["-seedindex", str(i)])
+            if c2:
+                break
         if not c2:
-            raise Machinery("harness crash on behaviour %d did not reproduce:\n%s" % (i, crash["output"]))
+            raise Machinery("harness crash near behaviour %d did not reproduce:\n%s" % (i0, crash["output"]))
         what = "server process crashed: " + first_panic_line(c2["output"])
         d = bundle(cx, what, beh_lines[i], [], c2["output"], play_cmd=play_cmd, trace_module=trace_module,
-                   trace_cfg=trace_cfg)
+                   trace_cfg=trace_cfg, extra={"seedindex": i})
         cx.violations.append((what, d))
         return
     for rj in rejected:
@@ -428,8 +443,9 @@ def write_evidence(cx, level, rule, assumptions, explanation=None):
     ev = {"property_id": cx.pid, "tier": cx.tier, "seed": cx.seed, "level": level, "coverage": cov,
           "assumptions": assumptions, "wall_s": round(time.time() - cx.t0, 1), "violations": len(cx.violations),
           "known_findings_seen": cx.known}
-    os.makedirs(os.path.join(VERIF, "evidence"), exist_ok=True)
-    json.dump(ev, open(os.path.join(VERIF, "evidence", cx.pid + ".json"), "w"), indent=1)
+    evdir = os.path.join(VERIF, "evidence") if REPO == "/repo" else os.path.join(cx.scratch, "evidence")
+    os.makedirs(evdir, exist_ok=True)   # runs against a scratch worktree (seeded changes) leave the evidence alone
+    json.dump(ev, open(os.path.join(evdir, cx.pid + ".json"), "w"), indent=1)
 
 
 def count_distinct(cx, *behaviour_files):
